@@ -1,0 +1,61 @@
+//go:build verif
+
+package desync
+
+// VerifAsm, when set by the verification harness, is called at the instrumented
+// sites of the concurrent assembler (AssembleFile's workers and feeder, writeChunk,
+// selfSeed, and the copy routines of the seed segments) with the event that has
+// just happened and its values. worker is the worker's number where the site knows
+// it and -1 elsewhere (the harness tells goroutines apart by itself). It lets the
+// harness schedule the goroutines and record event traces.
+//
+//	start, exit          a worker begins / ends (worker)
+//	feed                 the feeder is about to offer plan item a..b (positions)
+//	closed               the feeder has closed the channel (a = 1: interrupted)
+//	job                  a worker received positions a..b, c = 0 store, 1 null seed, 2 file seed (name)
+//	copy                 fileSeedSegment.copy moved b bytes from offset a of file name to offset c
+//	zero                 nullChunkSection.copy wrote b zero bytes at offset a
+//	rehash               the chunk at offset a was read back after a seed write; b = 1: it matches
+//	ss.get               selfSeed.getChunk: a = 1 found, b = position returned
+//	wc.self              writeChunk is done copying the chunk at offset a from the self seed
+//	wc.inplace           writeChunk compared the chunk at offset a in the target; b = 1: kept
+//	wc.store             writeChunk wrote b bytes from the store at offset a
+//	ss.add               selfSeed.add (still holding the lock) recorded a..b, written = c
+//	done                 the worker is back from selfSeed.add for positions a..b
+var VerifAsm func(ev string, worker int, a, b, c uint64, name string)
+
+func verifAsm(ev string, worker int, a, b, c uint64, name string) {
+	if f := VerifAsm; f != nil {
+		f(ev, worker, a, b, c, name)
+	}
+}
+
+func verifAsmOK(ok bool) uint64 {
+	if ok {
+		return 1
+	}
+	return 0
+}
+
+func verifAsmJob(worker int, segment IndexSegment, source SeedSegment) {
+	if VerifAsm == nil {
+		return
+	}
+	kind, name := uint64(0), ""
+	switch s := source.(type) {
+	case nil:
+	case *nullChunkSection:
+		kind = 1
+	default:
+		kind, name = 2, s.FileName()
+	}
+	verifAsm("job", worker, uint64(segment.first), uint64(segment.last), kind, name)
+}
+
+func verifAsmGet(ok bool, pos []int) {
+	if ok && len(pos) > 0 {
+		verifAsm("ss.get", -1, 1, uint64(pos[0]), 0, "")
+		return
+	}
+	verifAsm("ss.get", -1, 0, 0, 0, "")
+}
